@@ -28,6 +28,13 @@ def trivia_strings(rng, cfg, n):
         for b in (b" ", b",", b"\t", b"\n"):
             out.append(b * k + b";c " + b * 3 + b"\n")
             out.append(b * k + b"#_ x ")
+    if cfg in ("exp", "both"):
+        # discarded text blocks, with escaped triple quotes, lone quotes and long lines
+        for blk in (b'"""\n  say \\"""hi\\""" twice\n  """', b'"""\nx\n"""', b'"""\n  a "quoted" word and a longer line of text\n   b\n  """', b'"""\n\\"""\\"""\n"""'):
+            out.append(b"#_ " + blk + b" ")
+            out.append(b"#_[1 " + blk + b" 2] ")
+    if cfg in ("clj", "both"):
+        out += [b"#_ ^:m [1] ", b"#_ #:p{:a 1} ", b"#_ ^{:a 1} ^:b sym ", b"#_ 0x1F ", b"#_ 1/2 "]
     for _ in range(n):
         out.append(G.gen_trivia(rng, cfg, must=True, rich=True))
     return out
@@ -147,7 +154,7 @@ def run(tier):
                     rep.finding("handler-in-discard", "a handler or the default reader mode acted on a tag inside a discarded form: %s" % a[-120:],
                                 {"kind": "read", "config": cfg, "opt": dopt, "input_hex": C.hexs(ddocs[i]), "observed": a[:400]})
         # trivia-only documents
-        tdocs = [t for t in trivs if not t.startswith(b"#_")] + [b"".join(rng.choice(trivs) for _ in range(3)) for _ in range(100)] + [b"; no newline", b" ;x", b",", b""]
+        tdocs = list(trivs) + [b"#_ foo", b"#_ [1 2 3] ; trailing comment\n", b"  #_ a #_ {:b 1}  ", b"#_ #_ a b", b"#_#t 1", b"#_ \"s\"\n"] + [b"".join(rng.choice(trivs) for _ in range(3)) for _ in range(100)] + [b"; no newline", b" ;x", b",", b""]
         tdocs = [t for t in tdocs if t] + [b""]  # the empty document (passed as a NUL-terminated empty string) is trivia-only too
         for opt in (0, 1):
             out, cr = K.run_impl(cfg, K.read_lines(tdocs, opt))
